@@ -254,6 +254,9 @@ impl ECMAScriptDatamodel {
                 // Pretty print the error
                 let msg = format!("Script Error:  {} => {} ", script, e);
                 error!("{}", msg);
+                if handle_error {
+                    self.internal_error_execution();
+                }
                 Err(msg)
             }
         }
